@@ -30,6 +30,19 @@ pub open spec fn lww_conflict<V: PartialEq, M: Ord>(cur: LWWReg<V, M>, val: V, m
 }
 pub open spec fn lww_ok<V: PartialEq, M: Ord>() -> bool { ord_ok::<M>() && V::obeys_eq_spec() }
 
+impl<V: Default, M: Default> Default for LWWReg<V, M> {
+//@extract fn src/lwwreg.rs "Default for LWWReg" default
+    fn default() -> /*@ (r: @*/ Self /*@ ) @*/
+    //@ ensures V::default.ensures((), r.val), M::default.ensures((), r.marker),
+    {
+        Self {
+            val: V::default(),
+            marker: M::default(),
+        }
+    }
+//@end
+}
+
 impl<V: PartialEq, M: Ord> CvRDT for LWWReg<V, M> {
     type Validation = Validation;
     open spec fn cv_inv(&self) -> bool { lww_ok::<V, M>() }
